@@ -63,17 +63,31 @@ def r4(ctx):
     # Token.required_variables
     tk = P.method("formulaic.parser.types.token.Token", "required_variables")
     ctx.look(2)
-    t = norm(tk.node)
-    ok_name = "if self.kind is Token.Kind.NAME: return {Variable(self.token)}" in t.replace("\n", " ")
-    calls = [c for c in ast.walk(tk.node) if isinstance(c, ast.Call) and dotted(c.func) == "get_expression_variables"]
-    ok_py = bool(calls) and all(_guarded_by(P, c, "self.kind is Token.Kind.PYTHON") for c in calls)
-    last = returns_of(tk.node)
-    ok_lit = bool(last) and norm(last[-1].value) == "set()"
+    try:
+        touts = [o for o in sym.outcomes(tk.node) if o.kind in ("return", "fall")]
+    except sym.Unmodelled as e:
+        raise AnalysisError(f"C17.R4: Token.required_variables cannot be summarised: {e}")
+    NM, PY = "self.kind is Token.Kind.NAME", "self.kind is Token.Kind.PYTHON"
+    nm_ = sym.select(touts, {NM: True})
+    py_ = sym.select(touts, {NM: False, PY: True})
+    ot_ = sym.select(touts, {NM: False, PY: False})
+    ok_name = bool(nm_) and all(o.value is not None and norm(o.value) == "{Variable(self.token)}" for o in nm_)
+    uses_py = lambda o: (o.value is not None and "get_expression_variables(" in norm(o.value)) or any("get_expression_variables(" in norm(v) for v in o.env.values())
+    ok_py = any(uses_py(o) for o in py_) and not any(uses_py(o) for o in nm_ + ot_)
+    ok_lit = bool(ot_) and all(o.value is not None and norm(o.value) == "set()" for o in ot_)
     ctx.check(ok_name and ok_py and ok_lit, "C17.R4", "Token.required_variables: NAME → the name; PYTHON → parsed as Python; anything else → nothing", tk.where,
               ctx.construct(tk, text="dispatch"), f"name branch={ok_name}, python-only parsing={ok_py}, literal → empty={ok_lit}")
     # SimpleFormula.required_variables
     sf = P.method("formulaic.formula.SimpleFormula", "required_variables", inherited=False)
     fns = [sf] + [g for g in P.functions.values() if g.parent is sf and isinstance(g.node, ast.FunctionDef)]
+    # … and private helpers of the same module / class it calls (a nested helper moved out is still the same code)
+    for c_ in ast.walk(sf.node):
+        if isinstance(c_, ast.Call):
+            nm_ = c_.func.id if isinstance(c_.func, ast.Name) else (c_.func.attr if isinstance(c_.func, ast.Attribute) and dotted(c_.func.value) in ("self", "cls") else None)
+            for q_ in ((f"{sf.module.name}.{nm_}", f"formulaic.formula.SimpleFormula.{nm_}") if nm_ and nm_.startswith("_") else ()):
+                g_ = P.functions.get(q_)
+                if g_ is not None and g_ not in fns and isinstance(g_.node, ast.FunctionDef):
+                    fns.append(g_)
     calls = [(g, c) for g in fns for c in walk_no_nested(g.node) if isinstance(c, ast.Call) and dotted(c.func) == "get_expression_variables"]
     ctx.floor("C17.R4", len(calls), 1, "Python-AST extraction sites in SimpleFormula.required_variables")
     for g, c in calls:
